@@ -51,7 +51,10 @@ CellOK(ctx, d, path, k) ==
                                /\ IsPrim(ElemOf(core))
 
 YContexts == {"block", "loop", "then", "else", "elif_then", "elif_else", "elif2", "label"}
-XContexts == {"paren", "elem", "member", "nested", "ret", "cond"}
+\* ... and the places where a CALL with the address-of argument can stand inside a larger expression: the subscript of
+\* a read (`ta[f(&b)]`), the subscript of an assignment target, an operand of a binary operator, of a cast, of a
+\* comparison, an argument of a builtin.  The rule does not look at where the call stands.
+XContexts == {"paren", "elem", "member", "nested", "ret", "cond", "index", "index_set", "binop", "castop", "condcall", "builtin"}
 \* Sibling contexts of a whole-aggregate copy (read cells whose value is an array or a struct): the copy
 \* stands next to an expression that is evaluated EARLIER in the same statement -- a call with an argument
 \* in the index of the assignment target, in an earlier member of a struct literal, in an earlier nested
